@@ -43,6 +43,8 @@ type netParams struct {
 	FailAt       int         `json:"fail_at,omitempty"`       // C09: a first attempt whose FailAt-th receiver-side store write fails, then the judged attempt
 	RevertTo     map[int]int `json:"revert_to,omitempty"`     // history: commit i carries the table of the older commit RevertTo[i]
 	PreOld       bool        `json:"pre_old,omitempty"`       // Pre: afterwards the remote also gets a branch `old` on a commit the earlier fetch left shallow
+	PreOldTag    bool        `json:"pre_old_tag,omitempty"`   // Pre: ... and a tag `oldtag` (not named by any refspec) on such a commit
+	Collide      bool        `json:"collide,omitempty"`       // fetch: two refspecs send a branch and a same-named tag (on another commit) to one destination
 	PreMid       int         `json:"pre_mid,omitempty"`       // Pre: the earlier position of the branch (0 = pick a random ancestor)
 	Pre          string      `json:"pre,omitempty"`           // fetch: "shallow-fetch" = an earlier `fetch --depth 1` of an ancestor of the branch left shallow commits behind
 	ShallowLocal int         `json:"shallow_local,omitempty"` // push: this many non-tip commits of the pushed history lack their table locally (a shallow clone)
@@ -535,6 +537,8 @@ func fetchRefspecs(w *netWorld, p *netParams) []string {
 		plus = "+"
 	}
 	switch {
+	case p.Collide:
+		specs = append(specs, "+refs/heads/*:refs/backup/*", "+refs/tags/*:refs/backup/*")
 	case p.Narrow:
 		specs = append(specs, fmt.Sprintf("%srefs/heads/%s:refs/remotes/origin/%s", plus, w.plans[0].Name, w.plans[0].Name))
 	case p.Force == "mixed":
